@@ -267,7 +267,9 @@ class Builder:
             return ir.Insn(mn, {'rd': self.reg(rd), 'rs1': self.reg(rs1), 'rs2': self.reg()})
         if comp:
             rd = self.pick([7, 8, 9, 15, 16, 12])
-            return ir.Insn(mn, {'rd': self.reg(rd), 'rs1': self.reg(rd), 'rs2': self.reg(pool=[7, 8, 9, 15, 16, 10])})
+            # near miss: all three registers compressible but rd != rs1 (no c.* form exists for that)
+            rs1 = self.pick([8, 9, 15, 10]) if self.chance(0.25) else rd
+            return ir.Insn(mn, {'rd': self.reg(rd), 'rs1': self.reg(rs1), 'rs2': self.reg(pool=[7, 8, 9, 15, 16, 10])})
         return ir.Insn(mn, {'rd': self.reg(), 'rs1': self.reg(), 'rs2': self.reg()})
 
     def insn_imm(self):
@@ -280,14 +282,16 @@ class Builder:
             if k == 1:   # c.addi4spn region
                 return ir.Insn('addi', {'rd': self.reg(pool=[7, 8, 15, 16]), 'rs1': self.reg(2),
                                         'imm': self.imm12(-8, 1040, 1, extra=(4, 1020, 1024, 1016, 2, 0))})
-            if k == 2:   # c.addi / c.mv / c.nop region
+            if k == 2:   # c.addi / c.mv / c.nop region (sometimes rd != rs1: only imm 0 has a c.* form then)
                 rd = self.reg_n()
-                return ir.Insn('addi', {'rd': self.reg(rd), 'rs1': self.reg(rd), 'imm': self.imm12(-40, 40)})
+                rs1 = self.reg_n() if self.chance(0.2) else rd
+                return ir.Insn('addi', {'rd': self.reg(rd), 'rs1': self.reg(rs1), 'imm': self.imm12(-40, 40)})
             if k == 3:   # c.li region
                 return ir.Insn('addi', {'rd': self.reg(), 'rs1': self.reg(0), 'imm': self.imm12(-40, 40)})
             if k == 4:   # c.andi region
                 rd = self.pick([7, 8, 15, 16])
-                return ir.Insn('andi', {'rd': self.reg(rd), 'rs1': self.reg(rd), 'imm': self.imm12(-40, 40)})
+                rs1 = self.pick([8, 9, 15]) if self.chance(0.2) else rd
+                return ir.Insn('andi', {'rd': self.reg(rd), 'rs1': self.reg(rs1), 'imm': self.imm12(-40, 40)})
             return ir.Insn('addi', {'rd': self.reg(), 'rs1': self.reg(), 'imm': ir.Lit(0)})
         mn = self.pick(['addi', 'slti', 'sltiu', 'xori', 'ori', 'andi'])
         return ir.Insn(mn, {'rd': self.reg(), 'rs1': self.reg(), 'imm': self.imm12()})
@@ -308,7 +312,8 @@ class Builder:
         sh = self.pick([0, 1, 31, 16]) if self.chance(0.4) else self.i(0, 31)
         if self.chance(self.p['p_compressible']):
             rd = self.pick([7, 8, 15, 16, 1, 0]) if mn != 'slli' else self.reg_n()
-            return ir.Insn(mn, {'rd': self.reg(rd), 'rs1': self.reg(rd), 'shamt': self.shamt(sh)})
+            rs1 = self.pick([8, 9, 15, 1]) if self.chance(0.2) else rd
+            return ir.Insn(mn, {'rd': self.reg(rd), 'rs1': self.reg(rs1), 'shamt': self.shamt(sh)})
         return ir.Insn(mn, {'rd': self.reg(), 'rs1': self.reg(), 'shamt': self.shamt(sh)})
 
     def insn_load(self):
@@ -476,6 +481,21 @@ class Builder:
                         if self.chance(0.6) else self.i(1, 64))
 
     # -- transfers ---------------------------------------------------------------------------
+    def numeric_transfer(self):
+        """A branch / jump whose offset is an integer literal (any documented base), not a label."""
+        self.tags.add('numeric_offset')
+        k = self.i(0, 3)
+        if k == 0:
+            return ir.Insn(self.pick(sorted(rvref.BRANCHES)), {'rs1': self.reg(), 'rs2': self.reg(),
+                                                                'imm': ir.Lit(self.edgy(-4096, 4094, 2, extra=(254, 256, -256, -258)))})
+        if k == 1:
+            return ir.Insn('jal', {'rd': self.reg(pool=[0, 1, 5]), 'imm': ir.Lit(self.edgy(-(1 << 20), (1 << 20) - 2, 2, extra=(2046, 2048, -2048, -2050)))})
+        if k == 2:
+            self.tags.add('explicit_c')
+            return ir.Insn(self.pick(['c.beqz', 'c.bnez']), {'rs1': self.reg(self.i(8, 15)), 'imm': ir.Lit(self.edgy(-256, 254, 2))})
+        self.tags.add('explicit_c')
+        return ir.Insn(self.pick(['c.j', 'c.jal']), {'imm': ir.Lit(self.edgy(-2048, 2046, 2))})
+
     def branch_insn(self, L, comp=None):
         if comp is None:
             comp = self.chance(self.p['p_compressible'])
@@ -627,6 +647,8 @@ class Builder:
             if a.n % 2:
                 return [a, ir.Align(self.pick([2, 4]))]
             return [a]
+        if self.chance(0.12):
+            return [self.numeric_transfer()]
         return [self.transfer(self.label())]
 
     def build(self):
